@@ -74,11 +74,29 @@ def _cases(tier, rng):
         for cfg in cfgs:
             yield {"prog": prog, "cfg": cfg, "seed": rng.randrange(10**6)}
         q += 1
+    # None-valued elements that a downstream mapped function reads (a stored None is a value, not a missing element)
+    want, tries = (8 if tier == "quick" else 80), 0
+    while want and tries < 20000:
+        tries += 1
+        prog = progs.gen_map_program(rng, n_funcs=rng.randint(2, 3), allow_generator=False)
+        nones = {o for f in prog["funcs"] if f.get("none_mod") for o in f["outputs"]}
+        if not any(p_ in nones for f in prog["funcs"] if f.get("spec") for p_ in f["params"]):
+            continue
+        vals, _ = progs.denote(prog)
+        if not any(_has_none(vals[o]) for o in nones):
+            continue
+        want -= 1
+        for cfg in CONFIGS_QUICK:
+            yield {"prog": prog, "cfg": cfg, "seed": rng.randrange(10**6)}
     # consumers that read blocks (slices over internal and mapped axes) of an output with an interior internal axis
     for q in range(8 if tier == "quick" else 80):
         prog = progs.gen_internal_consumer_program(rng)
         for cfg in CONFIGS_QUICK:
             yield {"prog": prog, "cfg": cfg, "seed": rng.randrange(10**6)}
+
+
+def _has_none(v):
+    return v is None or (isinstance(v, list) and any(_has_none(x) for x in v))
 
 
 def _mk_executor(kind, seed):
